@@ -11,8 +11,9 @@ package main
 //             (b) byte-level dump of every module store, original (committed state) vs re-imported
 //             (c) both chains run the same further blocks: validator updates, store dumps, undelegation
 //                 records and hold counts must agree block by block
-// The canonical observations are replayed by the Lean model (Driver/Genesis.lean) of the cross-module core;
-// assets, oracle, mint and fee-distribution are covered by this differential only.
+// The canonical observations are replayed by the Lean model (Driver/Genesis.lean): the cross-module core and the four
+// x/assets stores (dom_genesis_assets.go: verdict of the module's Validate + re-imported stores, entry by entry);
+// oracle, mint and fee-distribution have Lean models tied by regenerated facts and are compared here by JSON / store dumps.
 
 import (
 	"encoding/hex"
@@ -55,17 +56,18 @@ var exportModules = []string{"auth", "bank", "feegrant", "authz", "feemarket", "
 	"exoslash", "feedistribution", "crisis"}
 
 type genWorld struct {
-	c        *Chain
-	env      *Env
-	rng      *RNG
-	hist     []string
-	stakers  []common.Address
-	nonce    uint64
-	nextKey  int
-	optOut   map[int]bool // operators that started an opt-out
-	directed string
-	avs2     string       // a second, non-chain AVS (registered lazily) that operators opt into and out of
-	inAVS2   map[int]bool // operators currently opted into avs2
+	c         *Chain
+	env       *Env
+	rng       *RNG
+	hist      []string
+	stakers   []common.Address
+	nonce     uint64
+	nextKey   int
+	nextChain int
+	optOut    map[int]bool // operators that started an opt-out
+	directed  string
+	avs2      string       // a second, non-chain AVS (registered lazily) that operators opt into and out of
+	inAVS2    map[int]bool // operators currently opted into avs2
 }
 
 func (w *genWorld) op(op, obs string) {
@@ -96,6 +98,17 @@ func (w *genWorld) deposit(si int, amt int64) error {
 	return c.CachedDo(func(ctx sdk.Context) error {
 		return c.App.AssetsKeeper.PerformDepositOrWithdraw(ctx, &assetskeeper.DepositWithdrawParams{
 			ClientChainLzID: c.LzID, Action: assetstypes.DepositLST, AssetsAddress: w.assetAddr(),
+			StakerAddress: w.stakers[si].Bytes(), OpAmount: sdkmath.NewInt(amt),
+		})
+	})
+}
+
+func (w *genWorld) withdraw(si int, amt int64) error {
+	c := w.c
+	w.note("withdraw staker=%d amount=%d", si, amt)
+	return c.CachedDo(func(ctx sdk.Context) error {
+		return c.App.AssetsKeeper.PerformDepositOrWithdraw(ctx, &assetskeeper.DepositWithdrawParams{
+			ClientChainLzID: c.LzID, Action: assetstypes.WithdrawLST, AssetsAddress: w.assetAddr(),
 			StakerAddress: w.stakers[si].Bytes(), OpAmount: sdkmath.NewInt(amt),
 		})
 	})
@@ -332,6 +345,7 @@ func importChain(orig *Chain, appState json.RawMessage, height int64) (c2 *Chain
 	ictx := app.BaseApp.NewContext(false, tmprotoHeaderAt(orig, height-1)).WithChainID(orig.Cfg.ChainID)
 	post.exports = exportModulesCtx(c2, ictx)
 	post.view = viewCore(c2, ictx)
+	post.assets = viewAssets(c2, ictx)
 	post.dumps = map[string][]string{}
 	for _, m := range c18Modules {
 		post.dumps[m] = StoreDumpCtx(c2, ictx, m)
@@ -343,6 +357,7 @@ func importChain(orig *Chain, appState json.RawMessage, height int64) (c2 *Chain
 
 type postInit struct {
 	view    coreView
+	assets  assetsView
 	exports map[string]string
 	dumps   map[string][]string
 }
@@ -400,6 +415,7 @@ type roundTripResult struct {
 	contDiff    []string
 	c2          *Chain
 	post        coreView
+	postAssets  assetsView
 }
 
 // describeKey renders a differing store key of a module for the report: prefix byte + length
@@ -457,6 +473,7 @@ func (w *genWorld) roundTripWith(contBlocks int, directed bool) (res roundTripRe
 	}
 	res.c2 = c2
 	res.post = post.view
+	res.postAssets = post.assets
 	// second export (state right after InitChain) against the first one, module by module
 	for _, m := range c18Modules {
 		if a, b := canonJSON(mods[m]), post.exports[m]; a != b {
